@@ -2,6 +2,7 @@ CONSTANTS
   PageSize = 4
   AtomicPut = TRUE
   ClampConsumed = TRUE
+  MetaByPage = TRUE
   Threads = {t1, t2}
   Groups = {g1, g2}
   Lens = {2, 3}
@@ -10,6 +11,6 @@ CONSTANTS
   MaxDown = 1
 SPECIFICATION MCSpec
 VIEW MCView
-INVARIANTS Readable DurablyReadable Dense MemoryMatchesDisk GroupOrder QAckBounds
+INVARIANTS Readable DurablyReadable Dense MemoryMatchesDisk GroupDirs GroupOrder QAckBounds
 PROPERTIES QAckMonotone QAckMovesBelowMin
 CHECK_DEADLOCK FALSE
